@@ -494,9 +494,9 @@ func TestVerif_C13(t *testing.T) {
 				sch := genScheme(rng, n)
 				c13Run(r, l, c13Case{Pattern: sch + "://example.com", Valid: n <= 64, Defect: "scheme-too-long", Shape: "scheme-length-" + strconv.Itoa(n)})
 			}
-			for p := 0; p <= 70000; p++ {
-				if p > 200 && p < 65400 && p%641 != 0 {
-					continue
+			for p := 0; p <= 100100; p++ {
+				if rep > 0 && p > 200 && p < 65400 && p%641 != 0 {
+					continue // the first repetition sweeps every port 0..100100
 				}
 				valid := p >= 1 && p <= 65535 && p != 443
 				c13Run(r, l, c13Case{Pattern: "https://example.com:" + strconv.Itoa(p), Valid: valid, Defect: "port-range-or-default", Shape: "port"})
@@ -520,7 +520,7 @@ func TestVerif_C13(t *testing.T) {
 		}
 		l.Sample("all-maxima", c13Case{Pattern: allMaximaShape(rng).String(), Valid: true, Shape: "all-maxima"})
 	})
-	r.Exhaustive("every domain length 1..300 (with/without trailing dot), every wildcard-base length 1..300, every label length 1..80, every scheme length 1..80, ports 0..200 and 65400..70000 (and every 641st between), all maxima at once")
+	r.Exhaustive("every domain length 1..300 (with/without trailing dot), every wildcard-base length 1..300, every label length 1..80, every scheme length 1..80, every port 0..100100, all maxima at once")
 
 	nb := pick(r, 64, 1024)
 	per := pick(r, 1200, 4000)
